@@ -34,9 +34,10 @@
    Partial / outside:
    * transform_wf is `_partial`: acl set and migrate are not covered (their chunks carry owner names of
      unbounded length); expanding a solid entry (s.entries(password): decrypt, decompress, parse) is a
-     parameter `expand` with the hypothesis that the expanded entries are writable (for a compressed or
-     encrypted solid entry the recogniser cannot look inside, so this is a property of the archive's
-     content); re-creating the solid entry is a parameter `rebuild` in C14_transform_wf_partial and the
+     parameter `expand` with the hypothesis that the expanded entries are writable; for a solid entry
+     without compression and encryption that is a theorem about the library's inner iteration
+     (C14_solid_inner_writable), for a compressed or encrypted one the recogniser cannot look inside,
+     so it is a property of the archive's content; re-creating the solid entry is a parameter `rebuild` in C14_transform_wf_partial and the
      pipeline's SolidEntryBuilder in C14_transform_wf_pipeline_partial; append/update/concat of the
      CLI are covered only through C14_rewrite_wf (re-writing decoded entries) and the check;
    * the hypotheses `writable` / `writable_spec` / `strict_ctx` / `small_pieces` are premises: that the
@@ -502,3 +503,30 @@ Check C14_transform_wf_pipeline_partial :
   run_edit hdr_tok content_tok expand (rebuild_pipeline E compress lvl ctx) keep pw c nfiles sel a = Ok a' ->
   wf_archive a' = true.
 Print Assumptions C14_transform_wf_pipeline_partial.
+
+Theorem C14_solid_inner_writable :
+  forall s : solid_entry, writable_solid s -> solid_plain s = true ->
+  exists inner, solid_inner_entries s = (inner, FinOk) /\ Forall writable_normal inner.
+Proof. exact solid_inner_writable. Qed.
+Check C14_solid_inner_writable :
+  forall s : solid_entry, writable_solid s -> solid_plain s = true ->
+  exists inner, solid_inner_entries s = (inner, FinOk) /\ Forall writable_normal inner.
+Print Assumptions C14_solid_inner_writable.
+
+Theorem C14_expand_plain_writable :
+  forall other : solid_entry -> res (list normal_entry),
+  (forall s inner, writable_solid s -> solid_plain s = false -> other s = Ok inner -> Forall writable_normal inner) ->
+  forall s inner, writable_solid s -> expand_plain_or other s = Ok inner -> Forall writable_normal inner.
+Proof. exact expand_plain_or_writable. Qed.
+Check C14_expand_plain_writable :
+  forall other : solid_entry -> res (list normal_entry),
+  (forall s inner, writable_solid s -> solid_plain s = false -> other s = Ok inner -> Forall writable_normal inner) ->
+  forall s inner, writable_solid s -> expand_plain_or other s = Ok inner -> Forall writable_normal inner.
+Print Assumptions C14_expand_plain_writable.
+
+Theorem C14_valid_name_sanitised :
+  forall n : bytes, utf8_valid n = true -> Name.sanitize_name n = n -> n <> [] -> valid_name n = true.
+Proof. exact valid_name_sanitised. Qed.
+Check C14_valid_name_sanitised :
+  forall n : bytes, utf8_valid n = true -> Name.sanitize_name n = n -> n <> [] -> valid_name n = true.
+Print Assumptions C14_valid_name_sanitised.
